@@ -57,12 +57,13 @@ ASSUMPTIONS = [
 DEPTH = {"quick": 3, "thorough": 4}
 
 # ---------------------------------------------------------------------------------------------- tolerances
-# measured worst covariance mismatch of the unchanged tree over the thorough orbit graphs (see report):
-TOL_IGEOS = 1e-7      # closed form + scipy bisect(xtol=2e-12) for p*: worst 4.3e-9 (LeBlanc, p* ~ 1e-4 so 2e-12 is 2e-8 relative)
-TOL_GENEOS = 2e-3     # tables/interpolation at 2001 grid points, 501 integration points: worst 1.7e-4
-TOL_BURN = 1e-10      # closed form: worst 1.1e-15 x time scale
+# measured worst covariance mismatch of the unchanged tree over the thorough orbit graphs (words <= 4, 8.2e6 judged points):
+TOL_IGEOS = 1e-8      # closed form + scipy bisect(xtol=2e-12) for p*: worst 1.07e-10 (LeBlanc, p* ~ 1e-4, so 2e-12 is 2e-8 relative)
+TOL_GENEOS = 1e-5     # tables/interpolation (2001 grid points, 501/1001 integration points): worst 9.7e-8 inside the declared windows
+TOL_BURN = 1e-10      # closed form (class A algebraic): worst 2.7e-14 x time scale at well-conditioned points
 IGEOS_DELTA = 1e-7    # x window length; jump positions of related problems differ by <= 2e-10 (bisect tolerance x dV/dp x t)
-FLOOR = 1e-3          # positive fields are compared relative to max(local value, 1e-3 x profile maximum)
+FLOOR = 1e-3          # positive fields are compared relative to max(local value, 1e-3 x profile maximum); velocities relative
+                      # to the profile's largest |u| or sound speed (a symmetric problem has u* ~ 1e-12)
 
 RIEMANN = {"IGEOS": ("riemann.ep_riemann.IGEOS_Solver", {}),
            "GenEOS": ("riemann.ep_riemann.GenEOS_Solver", {"num_int_pts": 501, "num_x_pts": 2001})}
